@@ -19,7 +19,7 @@ ASSUMPTIONS = ['oracle biexponential and bisection for p in pbt/props/c18.py (ma
                "the oracle's own p (the library solves p with scipy's default tolerance)"]
 BUDGET = {
     'quick': dict(examples=2500, time_s=240, lattice=9),
-    'thorough': dict(examples=150000, time_s=1500, lattice=25),
+    'thorough': dict(examples=150000, time_s=1500, lattice=25, fuzz=dict(workers=8, runs=6000, max_s=300)),
 }
 
 
